@@ -1,8 +1,13 @@
 """C13 - trace aggregation is order-independent and right for every partial trace.
 
-D1 every store of the ingest methods is a commutative merge (classified); aggregates are
-   created from their key only, D2 verdict fields are order-free functions of merged state
-   and finalisation is idempotent, D3 verdict decision tables / set-difference directions.
+D1 every store of the ingest methods (normal form, helpers inlined) is a commutative merge (classified); aggregates
+   are created from their key only; an aggregate that receives a merge is stored in the aggregator (CFG: no path
+   construction -> merge -> return without a registration),
+D2 verdict fields are order-free functions of merged state; finalisation writes to aggregator state - directly or
+   through an aliasing local - only idempotent min/max fall-backs; a None-until-ingested field is never ordered
+   without a None guard (finalisation is total on every subset of records),
+D3 verdict decision trees (if statements / conditional expressions, roles found by pattern, tests outside the table
+   treated as free booleans), roll-up counter zeroed per call, set-difference directions.
 """
 from __future__ import annotations
 
@@ -57,6 +62,17 @@ def _is_record_read(e: ast.AST, rec: str) -> bool:
     return False
 
 
+def bad_ctor_args(c: ast.Call, rec: str, key_vars: Set[str]) -> str:
+    """Non-empty explanation when an aggregate constructor receives anything but the key it is stored under."""
+    args = list(c.args) + [k.value for k in c.keywords]
+    argnames = {x.id for a in args for x in ast.walk(a) if isinstance(x, ast.Name)}
+    extra = argnames - key_vars
+    reads_record = any(_is_record_read(a, rec) for a in args)
+    if extra or reads_record:
+        return f"the aggregate is constructed from record fields other than its key ({sorted(extra) or 'record'}): they are kept only if this record happens to be the first one seen for the key"
+    return ""
+
+
 def classify_store(fn: ast.FunctionDef, st: ast.AST, target: ast.AST, rec: str, key_vars: Set[str], derived: Dict[str, ast.AST]) -> Tuple[str, str]:
     """Return (class, detail) for a store into an aggregate."""
     guards = _guards(st, fn)
@@ -67,13 +83,20 @@ def classify_store(fn: ast.FunctionDef, st: ast.AST, target: ast.AST, rec: str, 
         ctor_defs = [v for v in assigned_value(fn, value.id) if isinstance(v, ast.Call) and not (call_attr(v) == "get")]
         absent_guard = any(pol and isinstance(t, ast.UnaryOp) and isinstance(t.op, ast.Not) and dotted_name(t.operand) == value.id for t, pol in guards) or any(
             pol and isinstance(t, ast.Compare) and isinstance(t.ops[0], ast.Is) and dotted_name(t.left) == value.id for t, pol in guards)
-        if ctor_defs and absent_guard:
+        # or unconditionally re-stored after `x = container.get(key) or Ctor(..)`: what is written is what was there, or new
+        all_defs = assigned_value(fn, value.id)
+        lookup = ast.dump(ast.Call(func=ast.Attribute(value=target.value, attr="get", ctx=ast.Load()), args=[target.slice], keywords=[]), include_attributes=False).replace("Store()", "Load()")
+        restore = False
+        if len(all_defs) == 1 and isinstance(all_defs[0], ast.BoolOp) and isinstance(all_defs[0].op, ast.Or) and len(all_defs[0].values) == 2:
+            first, second = all_defs[0].values
+            if ast.dump(first, include_attributes=False) == lookup and isinstance(second, ast.Call) and isinstance(second.func, ast.Name):
+                restore = True
+                ctor_defs = [second]
+        if (ctor_defs and absent_guard) or restore:
             for c in ctor_defs:
-                argnames = {x.id for a in list(c.args) + [k.value for k in c.keywords] for x in ast.walk(a) if isinstance(x, ast.Name)}
-                extra = argnames - key_vars
-                reads_record = any(_is_record_read(a, rec) for a in list(c.args) + [k.value for k in c.keywords])
-                if extra or reads_record:
-                    return "bad-create", f"the aggregate is constructed from record fields other than its key ({sorted(extra) or 'record'}): they are kept only if this record happens to be the first one seen for the key"
+                bad = bad_ctor_args(c, rec, key_vars)
+                if bad:
+                    return "bad-create", bad
             return "create-if-absent", tname
     # counter: x[k] = x.get(k, 0) + 1  /  x += 1
     if isinstance(st, ast.AugAssign) and isinstance(st.op, ast.Add):
@@ -166,7 +189,18 @@ def _store_sites(fn: ast.AST) -> List[Tuple[ast.AST, ast.AST]]:
     return out
 
 
-def _state_aliases(fn: ast.AST, seeds: Set[str]) -> Set[str]:
+def fresh_result_methods(cls: ast.ClassDef) -> Set[str]:
+    """Methods of the aggregator whose declared result is a newly built verdict (or nothing), not stored state."""
+    out: Set[str] = set()
+    for m in cls.body:
+        if isinstance(m, FuncNode) and m.returns is not None:
+            r = ast.unparse(m.returns)
+            if "Aggregate" not in r and ("Completeness" in r or r == "None"):
+                out.add(m.name)
+    return out
+
+
+def _state_aliases(fn: ast.AST, seeds: Set[str], fresh_methods: Set[str] = frozenset()) -> Set[str]:
     """Locals that may refer to (a part of) an object reachable from one of *seeds* (may-alias, flow-insensitive)."""
     rooted = set(seeds)
 
@@ -194,9 +228,9 @@ def _state_aliases(fn: ast.AST, seeds: Set[str]) -> Set[str]:
                 return any(may_alias(a) for a in list(e.args) + [k.value for k in e.keywords])
             if isinstance(e.func, ast.Attribute):
                 if may_alias(e.func.value):
-                    # a method of a state object: `self.finalize_run(..)` style calls of the analysed class build
-                    # new verdict objects; container accessors hand out the stored objects themselves
-                    return not (isinstance(e.func.value, ast.Name) and e.func.value.id == "self")
+                    # a method of a state object hands out stored objects (container accessors, get_run), except the
+                    # methods of the analysed class that are declared to build a new verdict object
+                    return not (isinstance(e.func.value, ast.Name) and e.func.value.id == "self" and e.func.attr in fresh_methods)
                 return any(may_alias(a) for a in list(e.args) + [k.value for k in e.keywords])
         return False
 
@@ -244,13 +278,13 @@ def _leaves(e: ast.AST) -> List[ast.AST]:
     return [e]
 
 
-def check_registered(R: Report, rule: str, fn: ast.FunctionDef, qual: str, rec: str) -> None:
+def check_registered(R: Report, rule: str, fn: ast.FunctionDef, qual: str, rec: str, fresh_methods: Set[str] = frozenset()) -> None:
     """Every aggregate object an ingest method writes to comes out of a container reachable from ``self`` or, when
     it is constructed on the spot, is stored into such a container on every path before the method ends."""
     from ..cfg import CFG, reaching_defs
 
     g = CFG(fn)
-    state = _state_aliases(fn, {"self"})
+    state = _state_aliases(fn, {"self"}, fresh_methods)
     # locals bound to freshly constructed aggregates also count as roots for nested containers (run.nodes[...] = node)
     fresh_locals: Set[str] = set()
     for n in walk_no_nested(fn):
@@ -303,16 +337,18 @@ def check_registered(R: Report, rule: str, fn: ast.FunctionDef, qual: str, rec: 
                     continue
                 is_lookup = (isinstance(leaf, ast.Subscript) or (isinstance(leaf, ast.Call) and isinstance(leaf.func, ast.Attribute) and leaf.func.attr in ("get", "setdefault") and len(leaf.args) <= 2) or isinstance(leaf, ast.Attribute)) and _root_name(leaf) in (state | fresh_locals) and _root_name(leaf) != rec
                 if is_lookup:
-                    if isinstance(leaf, ast.Call) and leaf.func.attr == "setdefault":
-                        continue
-                    continue
+                    continue  # what the aggregator already holds (setdefault stores its default itself)
                 if isinstance(leaf, ast.Call) and isinstance(leaf.func, ast.Name) and leaf.func.id[:1].isupper():
                     key = (dn.id, site)
                     if key in seen_defs:
                         continue
                     seen_defs.add(key)
                     names = aliases | {name}
-                    bad = g.must_pass([dn.id], [site], lambda nd: is_registration(nd, names), skip_labels={"EXC", "BASE", "exc", "base"})
+                    # lost iff some path construction -> merge -> normal return never stores the object
+                    bad = g.must_pass([dn.id], [site], lambda nd: is_registration(nd, names), skip_labels={"EXC", "BASE"})
+                    if bad:
+                        tail = g.must_pass([site], [g.ret_exit], lambda nd: is_registration(nd, names), skip_labels={"EXC", "BASE"})
+                        bad = [(bad[0][0], bad[0][1] + tail[0][1][1:])] if tail else []
                     R.check(not bad, rule, AGG, qual, norm(a), f"the `{leaf.func.id}` constructed here receives the merge at L{getattr(site_stmt, 'lineno', 0)} (`{norm(site_stmt, 60)}`) without having been stored in a container of the aggregator: when this record is the first one seen for its key the merge is thrown away, so the verdict depends on the ingest order", getattr(a, "lineno", 0), path=bad[0][1] if bad else None, what_ok="registered-before-merge")
                     continue
                 raise AnalysisError(f"{qual}: origin of the written object `{name}` not understood: {norm(leaf)}")
@@ -520,11 +556,50 @@ def value_tree(fn: ast.FunctionDef, value: ast.AST, at: ast.AST):
     return tree
 
 
-def eval_tree(tree, atom_of, env: Dict[str, bool]):
+def _block_after(stmt: ast.stmt) -> Optional[List[ast.stmt]]:
+    p = parent(stmt)
+    for fld in ("body", "orelse", "finalbody"):
+        blk = getattr(p, fld, None)
+        if isinstance(blk, list) and any(stmt is s for s in blk):
+            i = next(i for i, s in enumerate(blk) if s is stmt)
+            return blk[i + 1:]
+    return None
+
+
+def local_definition(fn: ast.AST, use: ast.Name) -> Optional[ast.AST]:
+    """The expression a local stands for at *use*: its only definition, in a block that also holds the use later on,
+    with nothing in between that writes to (or through) a name the expression reads."""
+    stores = [n for n in walk_no_nested(fn) if isinstance(n, ast.Name) and n.id == use.id and isinstance(n.ctx, ast.Store)]
+    if len(stores) != 1:
+        return None
+    d = parent(stores[0])
+    if not (isinstance(d, (ast.Assign, ast.AnnAssign)) and d.value is not None and (d.target if isinstance(d, ast.AnnAssign) else d.targets[0]) is stores[0] and (isinstance(d, ast.AnnAssign) or len(d.targets) == 1)):
+        return None
+    later = _block_after(d)
+    if later is None or not any(use is x for st in later for x in ast.walk(st)):
+        return None
+    free = {x.id for x in ast.walk(d.value) if isinstance(x, ast.Name)}
+    for st in later:
+        for x in ast.walk(st):
+            if isinstance(x, ast.Name) and isinstance(x.ctx, (ast.Store, ast.Del)) and x.id in free:
+                return None
+        for _site, obj in _store_sites(st):
+            if _root_name(obj) in free or _root_name(obj) == use.id:
+                return None
+    return d.value
+
+
+def eval_tree(tree, atom_of, env: Dict[str, bool], fn: Optional[ast.AST] = None):
     def ev(e: ast.AST) -> bool:
         k = atom_of(e)
         if k is not None:
+            if k not in env:
+                raise AnalysisError(f"verdict test uses an atom outside the table: {ast.unparse(e)}")
             return env[k]
+        if isinstance(e, ast.Name) and fn is not None:
+            v = local_definition(fn, e)
+            if v is not None:
+                return ev(v)
         if isinstance(e, ast.UnaryOp) and isinstance(e.op, ast.Not):
             return not ev(e.operand)
         if isinstance(e, ast.BoolOp):
@@ -548,12 +623,46 @@ def eval_tree(tree, atom_of, env: Dict[str, bool]):
                 return ev(e.left)
             if c is False and isinstance(op, (ast.Is, ast.Eq)):
                 return not ev(e.left)
-        raise AnalysisError(f"verdict test uses an atom outside the table: {ast.unparse(e)}")
+        key = "?" + ast.unparse(e)
+        if key in env:
+            return env[key]
+        raise _NeedAtom(key)
 
     cur = tree
     while cur is not None and cur[0] == "if":
         cur = cur[2] if ev(cur[1]) else cur[3]
     return None if cur is None else cur[1]
+
+
+class _NeedAtom(Exception):
+    def __init__(self, key: str) -> None:
+        super().__init__(key)
+        self.key = key
+
+
+def eval_all(tree, atom_of, env: Dict[str, bool], fn: Optional[ast.AST] = None) -> Tuple[List[str], List[object]]:
+    """Verdicts of one table row for every value of the tests that are not atoms of the documented table
+    (they are treated as free booleans: the documented verdict is a function of the table's atoms alone)."""
+    extras: List[str] = []
+    while True:
+        try:
+            out = []
+            for vals in itertools.product([True, False], repeat=len(extras)):
+                e2 = dict(env)
+                e2.update(zip(extras, vals))
+                out.append(eval_tree(tree, atom_of, e2, fn))
+            return extras, out
+        except _NeedAtom as need:
+            if len(extras) >= 5:
+                raise AnalysisError(f"verdict tests use too many conditions outside the table: {extras}")
+            extras.append(need.key)
+
+
+def _row_check(R: Report, rule: str, qual: str, label: str, want: str, extras: List[str], results: List[object], line: int) -> None:
+    ok = all(r == want for r in results)
+    distinct = sorted({repr(r) for r in results})
+    dep = f" depending on {', '.join('`' + x[1:] + '`' for x in extras)}, which is not part of the documented decision table" if extras and len(distinct) > 1 else ""
+    R.check(ok, rule, AGG, qual, f"{label} -> {want}", f"verdict is {' / '.join(distinct)}{dep}", line)
 
 
 def _final_ctor(fn: ast.FunctionDef, cls_name: str) -> Tuple[ast.Call, ast.stmt]:
@@ -569,7 +678,10 @@ def _final_ctor(fn: ast.FunctionDef, cls_name: str) -> Tuple[ast.Call, ast.stmt]
                 continue
             out.append(c)
     if not out:
-        raise AnalysisError(f"{fn.name}: no {cls_name}(status=<computed>) found")
+        allc = [c for c in calls_in(fn) if (call_name(c) == cls_name or call_attr(c) == cls_name) and kwarg(c, "status") is not None]
+        if not allc:
+            raise AnalysisError(f"{fn.name}: no {cls_name}(status=...) found")
+        out = allc  # every verdict is a literal: the table rows decide whether that can be right
     c = out[-1]
     st = stmt_of(c)
     while parent(st) is not None and parent(st) is not fn:
@@ -578,10 +690,21 @@ def _final_ctor(fn: ast.FunctionDef, cls_name: str) -> Tuple[ast.Call, ast.stmt]
 
 
 def run(repo: Repo, R: Report) -> None:
+    try:
+        _run(repo, R)
+    except AnalysisError as exc:
+        if not R.violations():
+            raise
+        # a located violation stands; the shape that could not be read afterwards is recorded with it
+        R.note(f"analysis stopped after the reported violation(s): {exc}")
+
+
+def _run(repo: Repo, R: Report) -> None:
     from ..normal import nfunc
     from .. import pat
 
     cls = repo.cls(AGG, CLS)
+    fresh_methods = fresh_result_methods(cls)
     R.assume(
         "producer invariant (C06-D1/C09-D2): at most one pipeline_start / pipeline_end per run, one run_space_start / end per launch attempt, one SER per started node - the unique-per-key and last-writer stores commute under it",
         "prefixes of a real trace have seen the start record (it is the first record the runtime writes)",
@@ -631,7 +754,11 @@ def run(repo: Repo, R: Report) -> None:
                     R.ok(r_store, AGG, f"{CLS}.{name}", norm(n), "set-merge", n.lineno)
                 elif m in ("append", "extend", "insert", "pop", "remove", "clear", "setdefault", "popitem"):
                     R.violation(r_store, AGG, f"{CLS}.{name}", norm(n), f"`{m}` on aggregate state is order-dependent / not a merge", n.lineno)
-        check_registered(R, r_reg, fn, f"{CLS}.{name}", rec)
+        for c in calls_in(fn):
+            if isinstance(c.func, ast.Name) and c.func.id.endswith("Aggregate"):
+                bad = bad_ctor_args(c, rec, key_vars)
+                R.check(not bad, r_store, AGG, f"{CLS}.{name}", norm(c), bad, c.lineno, what_ok="constructed from its key only")
+        check_registered(R, r_reg, fn, f"{CLS}.{name}", rec, fresh_methods)
     # every record type dispatched to its own ingest method
     ing = repo.func(AGG, f"{CLS}.ingest")
     wanted = {"run_space_start", "run_space_end", "pipeline_start", "pipeline_end", "ser"}
@@ -659,7 +786,7 @@ def run(repo: Repo, R: Report) -> None:
             return isinstance(e, ast.Call) and call_attr(e) == "sorted"
         R.check(bool(vals) and all(is_sorted(x) for x in vals), r_of, AGG, f"{CLS}.finalize_run", f"{kw} is sorted(...)", f"{kw} inherits set/dict iteration order (depends on ingest order / hash seed)", ctor.lineno)
     for fn in (fr, fl, fa):
-        state = _state_aliases(fn, {"self"})
+        state = _state_aliases(fn, {"self"}, fresh_methods)
         for st, obj in _store_sites(fn):
             root = _root_name(obj)
             if root is None or root not in state:
@@ -681,11 +808,11 @@ def run(repo: Repo, R: Report) -> None:
     # ---------------------------------------------------------------- D3
     r_tab = R.rule("C13-D3-verdict-table", "run verdict: start&end -> complete, start&!end -> partial; launch verdict additionally complete only if no run is partial/invalid; problems name exactly the missing edge; missing = expected - observed, orphan = observed - expected, computed whenever the canonical spec is known", 14)
     # roles: the aggregate looked up, the observed-node set, the expected-node set, the roll-up counter
-    m = pat.find1(fr, "_RUN_ = self._runs.get(_ID_)")
+    m = pat.find1(fr, "_RUN_ = self._runs.get(_ID_)") or pat.find1(fr, "_RUN_ = self._runs[_ID_]") or pat.find1(fr, "_RUN_ = self.get_run(_ID_)")
     runv = pat.name_of(m[1], "_RUN_") if m else None
     if not runv:
         raise AnalysisError("finalize_run: lookup of the run aggregate (self._runs.get(..)) not found")
-    m = pat.find1(fl, "_L_ = self._launches.get(_K_)")
+    m = pat.find1(fl, "_L_ = self._launches.get(_K_)") or pat.find1(fl, "_L_ = self._launches[_K_]") or pat.find1(fl, "_L_ = self.get_launch(_A_, _B_)")
     launchv = pat.name_of(m[1], "_L_") if m else None
     if not launchv:
         raise AnalysisError("finalize_launch: lookup of the launch aggregate (self._launches.get(..)) not found")
@@ -711,10 +838,11 @@ def run(repo: Repo, R: Report) -> None:
     tree = value_tree(fr, status_expr, ctor_stmt)
     tt: Dict[Tuple[bool, ...], object] = {}
     for row in itertools.product([True, False], repeat=3):
-        tt[row] = eval_tree(tree, run_atom, dict(zip(("start", "end", "obs"), row)))
-    for o in (True, False):
-        R.check(tt[(True, True, o)] == "complete", r_tab, AGG, f"{CLS}.finalize_run", f"row start=1 end=1 observed={int(o)} -> complete", f"verdict is {tt[(True, True, o)]!r}", fr.lineno)
-        R.check(tt[(True, False, o)] == "partial", r_tab, AGG, f"{CLS}.finalize_run", f"row start=1 end=0 observed={int(o)} -> partial", f"verdict is {tt[(True, False, o)]!r}", fr.lineno)
+        extras, results = eval_all(tree, run_atom, dict(zip(("start", "end", "obs"), row)), fr)
+        tt[row] = results[0] if len({repr(r) for r in results}) == 1 else "|".join(sorted({repr(r) for r in results}))
+        s_, e_, o_ = row
+        if s_:
+            _row_check(R, r_tab, f"{CLS}.finalize_run", f"row start=1 end={int(e_)} observed={int(o_)}", "complete" if e_ else "partial", extras, results, fr.lineno)
     R.extra["run_verdict_table"] = {"".join("1" if b else "0" for b in k): repr(v) if isinstance(v, _Unknown) else v for k, v in tt.items()}
 
     # roll-up: counts come from finalize_run of each run in launch.pipelines, into a counter created by this call
@@ -722,8 +850,9 @@ def run(repo: Repo, R: Report) -> None:
     counts_var: Optional[str] = None
     ok = False
     loop_stmt = "for run_id in launch.pipelines: counts[finalize_run(run_id).status] += 1"
-    if loops and isinstance(loops[0].target, ast.Name):
-        lp = loops[0]
+    for lp in loops:
+        if not isinstance(lp.target, ast.Name) or ok:
+            continue
         it = lp.target.id
         verdict_of_run = _d(_expr(f"self.finalize_run({it})"))
         holders = {n.targets[0].id for n in walk_no_nested(lp) if isinstance(n, ast.Assign) and len(n.targets) == 1 and isinstance(n.targets[0], ast.Name) and _d(n.value) == verdict_of_run}
@@ -737,7 +866,7 @@ def run(repo: Repo, R: Report) -> None:
         if len(good) == 1 and len(incs) == 1 and unconditional and not lp.orelse:
             counts_var = good[0].target.value.id
             ok = True
-        elif incs:
+        elif incs and counts_var is None:
             counts_var = incs[0].target.value.id
     R.check(ok, r_tab, AGG, f"{CLS}.finalize_launch", loop_stmt, "launch roll-up does not count every run's own verdict", fl.lineno)
     if counts_var is not None:
@@ -757,9 +886,16 @@ def run(repo: Repo, R: Report) -> None:
         if d == l_runs:
             return "runs"
         if counts_var is not None:
+            def count_of(x: ast.AST, lab: str) -> bool:
+                return _d(x) in (_d(_expr(f"{counts_var}[{lab!r}]")), _d(_expr(f"{counts_var}.get({lab!r})")), _d(_expr(f"{counts_var}.get({lab!r}, 0)")))
             for lab in ("partial", "invalid", "complete"):
-                if d in (_d(_expr(f"{counts_var}[{lab!r}]")), _d(_expr(f"{counts_var}.get({lab!r})")), _d(_expr(f"{counts_var}.get({lab!r}, 0)"))):
+                if count_of(e, lab):
                     return lab
+            if isinstance(e, ast.Compare) and len(e.ops) == 1 and isinstance(e.ops[0], ast.Eq):
+                a, b = e.left, e.comparators[0]
+                total = _d(_expr(f"len({launchv}.pipelines)"))
+                if (count_of(a, "complete") and _d(b) == total) or (count_of(b, "complete") and _d(a) == total):
+                    return "all_complete"
         return None
 
     ltree = value_tree(fl, kwarg(lctor, "status"), lctor_stmt)
@@ -769,17 +905,16 @@ def run(repo: Repo, R: Report) -> None:
         if (part or inv) and not runs:
             continue  # infeasible: a run verdict without runs
         env = dict(zip(("start", "end", "runs", "partial", "invalid"), row))
-        env["complete"] = runs and not (part or inv)
-        ltt[row] = eval_tree(ltree, launch_atom, env)
-    for row, res in ltt.items():
-        s, e, runs, part, inv = row
+        env["all_complete"] = not (part or inv)  # counts['complete'] == number of runs
+        extras, results = eval_all(ltree, launch_atom, env, fl)
+        ltt[row] = results
         if s and e:
             want = "partial" if (part or inv) else "complete"
         elif s and not e:
             want = "partial"
         else:
             continue
-        R.check(res == want, r_tab, AGG, f"{CLS}.finalize_launch", f"row start={int(s)} end={int(e)} runs={int(runs)} partial={int(part)} invalid={int(inv)} -> {want}", f"verdict is {res!r}", fl.lineno)
+        _row_check(R, r_tab, f"{CLS}.finalize_launch", f"row start={int(s)} end={int(e)} runs={int(runs)} partial={int(part)} invalid={int(inv)}", want, extras, results, fl.lineno)
     R.extra["launch_verdict_rows"] = len(ltt)
     # problems polarity
     for fn, base, call, names in ((fr, runv, ctor, {"saw_start": "missing_pipeline_start", "saw_end": "missing_pipeline_end"}), (fl, launchv, lctor, {"saw_start": "missing_run_space_start", "saw_end": "missing_run_space_end"})):
